@@ -27,7 +27,7 @@ ASSUMPTIONS = [
     'hierarchies CPython rejects and root modules named like summary pages are outside the alphabet',
 ]
 FLOOR = {'quick': 300, 'thorough': 1500}
-SPACE = {'quick': 'histories <= 3 over 20 events x 2 schedules', 'thorough': 'histories <= 4 over 20 events x 2 schedules'}
+SPACE = {'quick': 'histories <= 3 over 23 events x 2 schedules', 'thorough': 'histories <= 4 over 23 events x 2 schedules'}
 
 EVENTS: Dict[str, List[Tuple[str, str]]] = {
     'defC':   [('a', 'class X:\n    def m(self): pass\n')],
@@ -50,6 +50,12 @@ EVENTS: Dict[str, List[Tuple[str, str]]] = {
     'rootname': [('a', 'class p:\n    "a class whose short name is the name of the root package"\n    def m(self): pass\n')],
     'modname': [('b', 'class a:\n    "a class whose short name is the name of a sibling module"\nclass b:\n    class b:\n        pass\n')],
     'zope':   [('b', 'from zope.interface import Interface, implementer\nclass IX(Interface):\n    def im(): pass\n@implementer(IX)\nclass W: pass\n')],
+    # interfaces that are not class statements: created by calling an InterfaceClass (subclass); declared through every declaration form
+    'zopecall': [('b', 'from zope.interface import implementer\nfrom zope.interface.interface import InterfaceClass\nclass MyIC(InterfaceClass): pass\nIC1 = InterfaceClass("IC1")\nIC2 = MyIC("IC2")\n'
+                       '@implementer(IC1, IC2)\nclass W2: pass\nclass IC3(IC2):\n    def im3(): pass\n@implementer(IC3)\nclass W3(W2): pass\n')],
+    'zopedecl': [('a', 'from zope.interface import Interface, classImplements, implementer, moduleProvides, implementer_only\nclass IY(Interface): pass\nclass IZ(IY): pass\nmoduleProvides(IY)\n'
+                       'class V1: pass\nclassImplements(V1, IY, IZ)\n@implementer(IZ)\nclass V2(V1): pass\n@implementer_only(IY)\nclass V3(V2): pass\n@implementer(X)\nclass V4: pass\n')],
+    'zopeimp': [('b', 'from zope.interface import implementer\nfrom .a import IY\nfrom p import IY as IYY\n@implementer(IY)\nclass U1: pass\n@implementer(IYY)\nclass U2: pass\n')],
 }
 NAMES = list(EVENTS)
 INTERESTING = {'move', 'moveAs', 'star', 'local', 'moveB', 'redefC', 'redefF', 'var', 'cycle', 'cycle2'}
@@ -134,7 +140,10 @@ def invariants(s: Any) -> List[str]:
                 bad.append('I7-subclass-duplicate')
             # I8 zope
             for iname in getattr(o, 'implements_directly', []) or []:
-                io = s.find_object(iname) if hasattr(s, 'find_object') else s.objForFullName(iname)
+                try:
+                    io = s.find_object(iname) if hasattr(s, 'find_object') else s.objForFullName(iname)
+                except LookupError:
+                    io = None       # a name that leads nowhere in this history (the interface is not defined)
                 if io is not None and hasattr(io, 'implementedby_directly') and o not in io.implementedby_directly:
                     bad.append('I8-implements-without-implementedby')
             for impl in getattr(o, 'implementedby_directly', []) or []:
